@@ -360,3 +360,370 @@ def register(gen, T):
                    f"def trampolineIffOutAndCalled : Bool := {lb(tramp_rule)}\n")
         out.append(T.footer("UsageTables"))
         return "".join(out)
+
+    @gen("MslGenTables")
+    def msl_gen_tables():
+        """tables and shape facts of the expression / statement / function half of msl/src/generator.rs (semantic half
+        of C02); enums (IntrinsicOp, UnaryOp, BinOp, LitKind, ConstKind, LitArm, LitGuard) are those of Gen.HlslGenTables"""
+        from rustsrc import ExtractError, fn_body, first_match, match_arms, enum_variants, normws, lean_str
+        gm = T.src("msl/src/generator.rs")
+        names_rs = T.src("msl/src/names.rs")
+        intr_rs = T.src("ir/src/intrinsics.rs")
+        ast_rs = T.src("ast/src/ast_expressions.rs")
+        irt_rs = T.src("ir/src/ir_types.rs")
+        hdr = T.header("MslGenTables", ["msl/src/generator.rs", "msl/src/names.rs", "ir/src/intrinsics.rs",
+                                        "ir/src/ir_types.rs", "ast/src/ast_expressions.rs"])
+        first, rest = hdr.split("\n", 1)
+        out = [first + "\nimport RsslVerif.Gen.HlslGenTables\n" + rest + "open RsslVerif.Gen.HlslGenTables\n\n"]
+
+        def lb(b):
+            return "true" if b else "false"
+
+        SAFE = {"String": "Str"}
+        iops = [v for v, _ in enum_variants(intr_rs, "IntrinsicOp")]
+        uops = [v for v, _ in enum_variants(ast_rs, "UnaryOp")]
+        bops = [v for v, _ in enum_variants(ast_rs, "BinOp")]
+        lits = [v for v, _ in enum_variants(ast_rs, "Literal")]
+        consts = [SAFE.get(v, v) for v, _ in enum_variants(irt_rs, "Constant")]
+        scalars = [v for v, _ in enum_variants(irt_rs, "ScalarType")]
+
+        # ---------------------------------------------------------------- generate_intrinsic_op
+        body = fn_body(gm, "generate_intrinsic_op")
+        scrut, arms_text, end = first_match(body, r'^&?\s*intrinsic$')
+        out.append("/-- `Form` of the Metal generate_intrinsic_op.  `floatCall n s b`: the arm looks at the scalar type of the first\n"
+                   "operand and returns `generate_invoke_simple(n, …)` when it is one of `s`, otherwise `Form::Binary(b)` -/\n"
+                   "inductive MForm where\n  | unary (op : UnaryOp)\n  | binary (op : BinOp)\n"
+                   "  | floatCall (name : String) (scalars : List String) (op : BinOp)\n"
+                   "  | special\n  | meshMethod\n  | meshHelper\n"
+                   "  deriving DecidableEq, Repr, Inhabited\n\n")
+        seen = {}
+        for pats, guard, result in match_arms(arms_text):
+            if guard is not None:
+                raise ExtractError("msl generate_intrinsic_op: guard unsupported")
+            r = normws(result)
+            m = re.fullmatch(r'Form::(Unary|Binary)\(\s*ast::(UnaryOp|BinOp)::([A-Za-z0-9_]+)\s*\)', r)
+            mf = re.fullmatch(
+                r'\{ let lhs_ety = exprs\[0\]\.get_type\(context\.module\)\.unwrap\(\); '
+                r'let lhs_ty = context\.module\.type_registry\.remove_modifier\(lhs_ety\.0\); '
+                r'match context\.module\.type_registry\.extract_scalar\(lhs_ty\) \{ '
+                r'((?:Some\(ir::ScalarType::[A-Za-z0-9]+\)(?: \| )?)+) => \{ '
+                r'return generate_invoke_simple\("([a-z0-9_]+)", &\[\], exprs, context\); \} '
+                r'_ => Form::Binary\(ast::BinOp::([A-Za-z0-9_]+)\), \} \}', r)
+            if m:
+                kind, en, v = m.groups()
+                if (kind, en) not in (("Unary", "UnaryOp"), ("Binary", "BinOp")):
+                    raise ExtractError(f"msl generate_intrinsic_op: {r!r} mixes form and operator enum")
+                if v not in (uops if kind == "Unary" else bops):
+                    raise ExtractError(f"msl generate_intrinsic_op: unknown operator {v}")
+                val = f".{kind.lower()} .{v}"
+            elif mf:
+                ss = re.findall(r'ir::ScalarType::([A-Za-z0-9]+)', mf.group(1))
+                if any(x not in scalars for x in ss) or mf.group(3) not in bops:
+                    raise ExtractError(f"msl generate_intrinsic_op: {r[:60]!r}")
+                val = f".floatCall {lean_str(mf.group(2))} {T.lean_list(lean_str(x) for x in ss)} .{mf.group(3)}"
+            elif r.startswith("Form::Special("):
+                val = ".special"
+            elif r.startswith("Form::MeshOutputMethod("):
+                val = ".meshMethod"
+            elif r.startswith("Form::MeshOutputHelper("):
+                val = ".meshHelper"
+            else:
+                raise ExtractError(f"msl generate_intrinsic_op: arm result {r[:80]!r} unsupported")
+            for p in pats:
+                if p not in iops:
+                    raise ExtractError(f"msl generate_intrinsic_op: pattern {p!r} is not an IntrinsicOp")
+                seen.setdefault(p, val)
+        missing = [o for o in iops if o not in seen]
+        if missing:
+            raise ExtractError(f"msl generate_intrinsic_op: no arm for {missing}")
+        out.append("def mslOpForm : IntrinsicOp → MForm\n" + "".join(f"  | .{o} => {seen[o]}\n" for o in iops) + "\n")
+        scrut2, arms2, _ = first_match(body, r'^form$', end)
+        shape = {}
+        for pats, guard, result in match_arms(arms2):
+            r = normws(result)
+            if pats == ["Form::Unary(op)"]:
+                shape["unary"] = r == ("{ assert_eq!(exprs.len(), 1); let inner = generate_expression(&exprs[0], context)?; "
+                                       "ast::Expression::UnaryOperation(op, Box::new(Located::none(inner))) }")
+            elif pats == ["Form::Binary(op)"]:
+                shape["binary"] = r == (
+                    "{ assert_eq!(exprs.len(), 2); let left = generate_expression(&exprs[0], context)?; "
+                    "let right = generate_expression(&exprs[1], context)?; let output = ast::Expression::BinaryOperation( op, "
+                    "Box::new(Located::none(left)), Box::new(Located::none(right)), ); "
+                    "let unmod_ty = context.module.type_registry.remove_modifier(output_type); "
+                    "let tyl = context.module.type_registry.get_type_layer(unmod_ty); "
+                    "if matches!(tyl, ir::TypeLayer::Enum(_)) { let cast_target = generate_type_id(output_type, context)?; "
+                    "ast::Expression::Cast(Box::new(cast_target), Box::new(Located::none(output))) } else { output } }")
+        out.append("/-- Form::Unary(op) builds UnaryOperation(op, gen exprs[0]) after asserting one operand -/\n"
+                   f"def mslUnaryFormAsModelled : Bool := {lb(shape.get('unary'))}\n"
+                   "/-- Form::Binary(op) builds BinaryOperation(op, gen exprs[0], gen exprs[1]) after asserting two operands; only a\n"
+                   "result of enum type is wrapped in a cast (no enums in the modelled subset) -/\n"
+                   f"def mslBinaryFormAsModelled : Bool := {lb(shape.get('binary'))}\n")
+        inv = normws(fn_body(gm, "generate_invoke_simple")) == (
+            "let identifier = metal_lib_identifier(name); let object = Box::new(Located::none(ast::Expression::Identifier(identifier))); "
+            "let type_args = generate_template_type_args(tys, context)?; let args = generate_invocation_args(exprs, context)?; "
+            "Ok(ast::Expression::Call(object, type_args, args))")
+        mli = normws(fn_body(gm, "metal_lib_identifier")) == "metal_lib_identifier_complex(&[name])" and \
+            normws(fn_body(gm, "metal_lib_identifier_complex")) == (
+                'let mut identifiers = Vec::new(); identifiers.push("metal"); identifiers.extend(names); ast::ScopedIdentifier { '
+                "base: ast::ScopedIdentifierBase::Relative, identifiers: identifiers .into_iter() .map(|name| Located::none(String::from(name))) "
+                ".collect(), }")
+        gia = normws(fn_body(gm, "generate_invocation_args")) == (
+            "let mut ast = Vec::new(); for expr in exprs { ast.push(Located::none(generate_expression(expr, context)?)); } Ok(ast)")
+        out.append("/-- generate_invoke_simple(name, [], exprs): Call(metal::name, no type arguments, the arguments in order) -/\n"
+                   f"def invokeSimpleAsModelled : Bool := {lb(inv and mli)}\n"
+                   f"def invocationArgsInOrder : Bool := {lb(gia)}\n"
+                   'def metalLibPrefix : String := "metal"\n\n')
+
+        # ---------------------------------------------------------------- generate_literal
+        lbody = fn_body(gm, "generate_literal")
+        _, larms, _ = first_match(lbody, r'^\*literal$')
+        rows = []
+        for pats, guard, result in match_arms(larms):
+            if len(pats) != 1:
+                raise ExtractError("msl generate_literal: alternative patterns unsupported")
+            pm = re.fullmatch(r'ir::Constant::([A-Za-z0-9]+)\((.*)\)', pats[0])
+            if not pm or SAFE.get(pm.group(1), pm.group(1)) not in consts:
+                raise ExtractError(f"msl generate_literal: pattern {pats[0]!r}")
+            ck = SAFE.get(pm.group(1), pm.group(1))
+            r = normws(result)
+            bm = re.fullmatch(r'\{ (ast::Literal::[A-Za-z0-9]+\(.*\)) \}', r)
+            if bm:
+                r = bm.group(1)
+            g = normws(guard) if guard else None
+            gk = None
+            if ck == "Enum":
+                arm, gk = ".enumLookup", "always"
+            elif r.startswith("panic!"):
+                arm, gk = ".panics", "always" if g is None else None
+            else:
+                m = re.fullmatch(r'ast::Literal::([A-Za-z0-9]+)\((.*)\)', r)
+                mneg = re.search(r'return Ok\(ast::Expression::UnaryOperation\( ast::UnaryOp::Minus, Box::new\(Located::none\('
+                                 r'ast::Expression::Literal\( ast::Literal::([A-Za-z0-9]+)\((-v as u64|u64::from\(v\.unsigned_abs\(\)\))\), \)\)\), \)\);', r)
+                if m and m.group(1) in lits:
+                    inner = m.group(2)
+                    if inner == "v":
+                        arm = f".plain .{m.group(1)}"
+                    elif inner in ("v as u64", "u64::from(v)"):
+                        arm = f".widen .{m.group(1)}"
+                    else:
+                        raise ExtractError(f"msl generate_literal: literal payload {inner!r}")
+                elif mneg and mneg.group(1) in lits:
+                    arm = (".negMinus" if mneg.group(2) == "-v as u64" else ".negMinusAbs") + f" .{mneg.group(1)}"
+                else:
+                    raise ExtractError(f"msl generate_literal: result {r[:80]!r} unsupported")
+            if gk is None:
+                if g is None:
+                    gk = "always"
+                elif g == "v < 0":
+                    gk = "neg"
+                elif g == "v < 0 && -v <= u64::MAX as i128":
+                    gk = "negFitsU64"
+                elif g == "v >= 0 && v <= u64::MAX as i128":
+                    gk = "nonnegFitsU64"
+                else:
+                    raise ExtractError(f"msl generate_literal: guard {g!r} unsupported")
+            rows.append((ck, gk, arm))
+        out.append("/-- arms of `match *literal` in the Metal generate_literal, in source order (first match wins) -/\n"
+                   "def mslLiteralArms : List (ConstKind × LitGuard × LitArm) :=\n  " +
+                   T.lean_list(f"(.{c}, .{g}, {a})" for c, g, a in rows) + "\n\n")
+
+        # ---------------------------------------------------------------- generate_expression arms
+        ebody = fn_body(gm, "generate_expression")
+        _, earms, _ = first_match(ebody, r'^expr$')
+        facts = {"mslSequenceAsModelled": False, "mslCastAsModelled": False, "mslTernaryInOrder": False,
+                 "mslVariableIsLeafName": False, "mslGlobalIsName": False, "mslCallDispatch": False, "mslLiteralArm": False}
+        for pats, guard, result in match_arms(earms):
+            r = normws(result)
+            if pats == ["ir::Expression::Sequence(exprs)"]:
+                facts["mslSequenceAsModelled"] = r == (
+                    "{ assert!(exprs.len() >= 2); let (last, front) = exprs.split_last().unwrap(); "
+                    "let mut end = generate_expression(last, context)?; for expr in front.iter().rev() { "
+                    "let expr = generate_expression(expr, context)?; end = ast::Expression::BinaryOperation( ast::BinOp::Sequence, "
+                    "Box::new(Located::none(expr)), Box::new(Located::none(end)), ) } end }")
+            elif pats == ["ir::Expression::Cast(type_id, expr)"]:
+                facts["mslCastAsModelled"] = all(x in r for x in [
+                    "let to_literal = matches!( unmod_tyl, ir::TypeLayer::Scalar(ir::ScalarType::IntLiteral) | ir::TypeLayer::Scalar(ir::ScalarType::FloatLiteral) );",
+                    "let inner = generate_expression(expr, context)?; let to_struct = matches!(unmod_tyl, ir::TypeLayer::Struct(_)); if to_struct {",
+                    "} else if !to_literal { fn try_implicit_truncate(",
+                    "match input_tyl { ir::TypeLayer::Vector(_, in_dim) => {",
+                    "_ => expr, } } let inner = try_implicit_truncate(input_tyl, unmod_tyl, inner); let ty = generate_type_id(*type_id, context)?; "
+                    "ast::Expression::Cast(Box::new(ty), Box::new(Located::none(inner))) } else { inner } }"])
+            elif pats == ["ir::Expression::TernaryConditional(expr_cond, expr_true, expr_false)"]:
+                facts["mslTernaryInOrder"] = r == (
+                    "{ let expr_cond = generate_expression(expr_cond, context)?; let expr_true = generate_expression(expr_true, context)?; "
+                    "let expr_false = generate_expression(expr_false, context)?; let expr_cond = Box::new(Located::none(expr_cond)); "
+                    "let expr_true = Box::new(Located::none(expr_true)); let expr_false = Box::new(Located::none(expr_false)); "
+                    "ast::Expression::TernaryConditional(expr_cond, expr_true, expr_false) }")
+            elif pats == ["ir::Expression::Variable(v)"]:
+                facts["mslVariableIsLeafName"] = r == "ast::Expression::Identifier(ast::ScopedIdentifier::trivial( context.get_variable_name(*v)?, ))"
+            elif pats == ["ir::Expression::Global(v)"]:
+                facts["mslGlobalIsName"] = r.endswith(
+                    "} else { match context.global_variable_modes.get(v) { Some(GlobalMode::Constant) => ast::Expression::Identifier( "
+                    "scoped_name_to_identifier(context.get_global_name_full(*v)?), ), _ => ast::Expression::Identifier(ast::ScopedIdentifier::trivial( "
+                    "context.get_global_name(*v)?, )), } } }") and r.startswith("{ let def = &context.module.global_registry[v.0 as usize]; if def.is_intrinsic {")
+            elif pats == ["ir::Expression::Call(id, ct, exprs)"]:
+                facts["mslCallDispatch"] = r.endswith(
+                    "if let Some(intrinsic) = context.module.function_registry.get_intrinsic_data(*id) { "
+                    "generate_intrinsic_function(intrinsic, tys, exprs, context)? } else { generate_user_call(*id, ct, tys, exprs, context)? } }")
+            elif pats == ["ir::Expression::Literal(lit)"]:
+                facts["mslLiteralArm"] = r == "generate_literal(lit, context)?"
+        for k, v in facts.items():
+            out.append(f"def {k} : Bool := {lb(v)}\n")
+        guc = normws(fn_body(gm, "generate_user_call"))
+        user_call = all(x in guc for x in [
+            "ir::CallType::FreeFunction => { let scoped_name = context.get_function_name_full(id)?; "
+            "let object = ast::Expression::Identifier(scoped_name_to_identifier(scoped_name)); (object, exprs.as_slice()) }",
+            "let type_args = generate_template_type_args(tys, context)?; let mut args = generate_invocation_args(arguments, context)?;",
+            "append_arguments_for_globals(&mut args, id, context); let expr = ast::Expression::Call(Box::new(Located::none(object)), type_args, args); Ok(expr)"])
+        out.append("/-- generate_user_call (free function): Call(name, no type arguments, user arguments in order ++ defaults ++ the\n"
+                   "callee's arguments for globals) -/\n"
+                   f"def mslUserCallAsModelled : Bool := {lb(user_call)}\n\n")
+
+        # ---------------------------------------------------------------- statements
+        sb = normws(fn_body(gm, "generate_scope_block"))
+        scope_ok = sb == (
+            "let mut statements = Vec::new(); for statement in &block.0 { let statement = generate_statement(statement, context)?; "
+            "if let Some(ast::Statement { kind: ast::StatementKind::CaseLabel(_, current) | ast::StatementKind::DefaultLabel(current), .. }) "
+            "= statements.last_mut() && let ast::Statement { kind: ast::StatementKind::Empty, .. } = **current "
+            "{ **current = statement; continue; } statements.push(statement); } Ok(statements)")
+        out.append(f"def mslScopeBlockAsModelled : Bool := {lb(scope_ok)}\n")
+        gs = fn_body(gm, "generate_statement")
+        _, sarms, _ = first_match(gs, r'^&statement\.kind$')
+        blk = ("Box::new(ast::Statement { kind: ast::StatementKind::Block(%s), location: SourceLocation::UNKNOWN, attributes: Vec::new(), })")
+        expected = {
+            "ir::StatementKind::Expression(expr)": "{ let expr = generate_expression(expr, context)?; ast::StatementKind::Expression(expr) }",
+            "ir::StatementKind::Var(def)": "{ let def = generate_variable_definition(def, context)?; ast::StatementKind::Var(def) }",
+            "ir::StatementKind::Block(block)": "{ let statements = generate_scope_block(block, context)?; ast::StatementKind::Block(statements) }",
+            "ir::StatementKind::If(cond, block)": "{ let cond = generate_expression(cond, context)?; let block = generate_scope_block(block, context)?; "
+                "let cond = Located::none(cond); let block = " + blk % "block" + "; ast::StatementKind::If(cond, block) }",
+            "ir::StatementKind::IfElse(cond, block_true, block_false)": "{ let cond = generate_expression(cond, context)?; "
+                "let block_true = generate_scope_block(block_true, context)?; let block_false = generate_scope_block(block_false, context)?; "
+                "let cond = Located::none(cond); let block_true = " + blk % "block_true" + "; let block_false = " + blk % "block_false" +
+                "; ast::StatementKind::IfElse(cond, block_true, block_false) }",
+            "ir::StatementKind::For(init, cond, inc, block)": "{ let init = generate_for_init(init, context)?; let cond = match cond { "
+                "Some(cond) => Some(Located::none(generate_expression(cond, context)?)), None => None, }; let inc = match inc { "
+                "Some(inc) => Some(Located::none(generate_expression(inc, context)?)), None => None, }; "
+                "let block = generate_scope_block(block, context)?; let block = " + blk % "block" + "; ast::StatementKind::For(init, cond, inc, block) }",
+            "ir::StatementKind::While(cond, block)": "{ let cond = generate_expression(cond, context)?; let block = generate_scope_block(block, context)?; "
+                "let cond = Located::none(cond); let block = " + blk % "block" + "; ast::StatementKind::While(cond, block) }",
+            "ir::StatementKind::DoWhile(block, cond)": "{ let block = generate_scope_block(block, context)?; let cond = generate_expression(cond, context)?; "
+                "let cond = Located::none(cond); let block = " + blk % "block" + "; ast::StatementKind::DoWhile(block, cond) }",
+            "ir::StatementKind::Switch(cond, block)": "{ let cond = generate_expression(cond, context)?; let block = generate_scope_block(block, context)?; "
+                "let cond = Located::none(cond); let block = " + blk % "block" + "; ast::StatementKind::Switch(cond, block) }",
+            "ir::StatementKind::Break": "ast::StatementKind::Break",
+            "ir::StatementKind::Continue": "ast::StatementKind::Continue",
+            "ir::StatementKind::Return(expr_opt)": "{ if let Some(expr) = expr_opt { let expr = generate_expression(expr, context)?; "
+                "ast::StatementKind::Return(Some(Located::none(expr))) } else { ast::StatementKind::Return(None) } }",
+            "ir::StatementKind::CaseLabel(value)": "{ let expr = generate_literal(value, context)?; let empty_statement = Box::new(ast::Statement { "
+                "kind: ast::StatementKind::Empty, location: SourceLocation::UNKNOWN, attributes: Vec::new(), }); "
+                "ast::StatementKind::CaseLabel(Located::none(expr), empty_statement) }",
+            "ir::StatementKind::DefaultLabel": "{ let empty_statement = Box::new(ast::Statement { kind: ast::StatementKind::Empty, "
+                "location: SourceLocation::UNKNOWN, attributes: Vec::new(), }); ast::StatementKind::DefaultLabel(empty_statement) }",
+        }
+        got = {pats[0]: normws(result) for pats, guard, result in match_arms(sarms) if len(pats) == 1 and guard is None}
+        bad = [k for k, v in expected.items() if got.get(k) != v]
+        out.append("/-- every statement arm of the Metal generate_statement that the model mirrors has exactly the modelled text\n"
+                   f"(differing arms: {bad}) -/\n"
+                   f"def mslStatementArmsAsModelled : Bool := {lb(not bad)}\n")
+        gvd = normws(fn_body(gm, "generate_variable_definition")) == (
+            "let var_def = context.module.variable_registry.get_local_variable(def.id); let storage_modifier = match var_def.storage_class { "
+            "ir::LocalStorage::Local => None, ir::LocalStorage::Static => Some(ast::TypeModifier::Static), }; "
+            "if var_def.precise { return Err(GenerateError::UnsupportedPrecise); }; let name = context.get_variable_name(def.id)?.to_string(); "
+            "let (base, declarator) = generate_type_and_declarator(var_def.type_id, &name, false, context)?; "
+            "let local_type = prepend_modifiers(base, &[storage_modifier]); let init = generate_initializer(&def.init, var_def.type_id, context)?; "
+            "let init_declarator = ast::InitDeclarator { declarator, location_annotations: Vec::new(), init, }; "
+            "let def = ast::VarDef { local_type, defs: Vec::from([init_declarator]), }; Ok(def)")
+        gfi_ = normws(fn_body(gm, "generate_for_init")) == (
+            "let ast = match init { ir::ForInit::Empty => ast::InitStatement::Empty, ir::ForInit::Expression(expr) => { "
+            "ast::InitStatement::Expression(Located::none(generate_expression(expr, context)?)) } ir::ForInit::Definitions(defs) => { "
+            "let (head, tail) = defs.split_first().unwrap(); let mut ast = generate_variable_definition(head, context)?; "
+            "assert_eq!(ast.defs.len(), 1); for def in tail { let mut tail_ast = generate_variable_definition(def, context)?; "
+            "assert_eq!(ast.local_type, tail_ast.local_type); assert_eq!(tail_ast.defs.len(), 1); ast.defs.append(&mut tail_ast.defs); } "
+            "ast::InitStatement::Declaration(ast) } }; Ok(ast)")
+        out.append(f"def mslVariableDefinitionAsModelled : Bool := {lb(gvd)}\n"
+                   f"def mslForInitAsModelled : Bool := {lb(gfi_)}\n\n")
+
+        # ---------------------------------------------------------------- generate_scalar_type
+        sbody = fn_body(gm, "generate_scalar_type")
+        _, sarms2, _ = first_match(sbody, r'^ty$')
+        names = []
+        for pats, guard, result in match_arms(sarms2):
+            pm = re.fullmatch(r'ir::ScalarType::([A-Za-z0-9]+)', pats[0])
+            if not pm:
+                raise ExtractError(f"msl generate_scalar_type: pattern {pats[0]!r}")
+            sm = re.fullmatch(r'"([a-z0-9_]+)"', result)
+            if sm:
+                names.append((pm.group(1), "some (some " + lean_str(sm.group(1)) + ")"))
+            elif result.startswith("panic!"):
+                names.append((pm.group(1), "some none"))
+            elif result.startswith("return Err("):
+                names.append((pm.group(1), "none"))
+            else:
+                raise ExtractError(f"msl generate_scalar_type: result {result!r}")
+        out.append("/-- Metal generate_scalar_type: scalar ↦ type name; `some none` = the arm panics, `none` = a diagnostic (Err) -/\n"
+                   "def mslScalarTypeName : List (String × Option (Option String)) :=\n  " +
+                   T.lean_list(f"({lean_str(a)}, {b})" for a, b in names) + "\n\n")
+
+        # ---------------------------------------------------------------- functions, parameters, trampoline
+        gfp = normws(fn_body(gm, "generate_function_param"))
+        ref_param = ("let is_reference = matches!( param.param_type.input_modifier, ir::InputModifier::Out | ir::InputModifier::InOut ); "
+                     "if is_reference { param_type .modifiers .prepend(Located::none(ast::TypeModifier::AddressSpace( ast::AddressSpace::Thread, ))); "
+                     "declarator = declarator.insert_base(|base| { ast::Declarator::Reference(ast::ReferenceDeclarator { attributes: Vec::new(), "
+                     "inner: Box::new(base), }) }); }") in gfp
+        out.append("/-- generate_function_param: an out / inout parameter becomes `thread T& name`, an in parameter `T name` -/\n"
+                   f"def outParamsAreThreadReferences : Bool := {lb(ref_param)}\n")
+        m = re.search(r'pub const STAGE_OUTPUT_NAME_LOCAL: &str = "([A-Za-z_0-9]+)";', names_rs)
+        if not m:
+            raise ExtractError("names.rs: STAGE_OUTPUT_NAME_LOCAL")
+        out.append(f"def trampolineResultName : String := {lean_str(m.group(1))}\n")
+        tb = normws(fn_body(gm, "generate_function_out_trampoline_body"))
+        pm = re.search(r'let local_name = format!\("([^"{}]*)\{\}", input_name\);', tb)
+        if not pm:
+            raise ExtractError("trampoline: local name format")
+        out.append(f"def trampolineLocalPrefix : String := {lean_str(pm.group(1))}\n")
+        tramp_expected = (
+            'let needs_return = !context .module .type_registry .is_void(sig.return_type.return_type); let mut statements = Vec::new(); '
+            'let mut statements_after = Vec::new(); let mut params = Vec::new(); for param in &decl.params { '
+            'let input_name = context.get_variable_name(param.id)?.to_string(); if param.param_type.input_modifier != ir::InputModifier::In { '
+            'let local_name = format!("' + pm.group(1) + '{}", input_name); let (ty, declarator) = generate_type_and_declarator( param.param_type.type_id, &local_name, false, context, )?; '
+            'statements.push(ast::Statement { kind: ast::StatementKind::Var(ast::VarDef { local_type: ty, defs: Vec::from([ast::InitDeclarator { '
+            'declarator, location_annotations: Vec::new(), init: if param.param_type.input_modifier == ir::InputModifier::InOut { '
+            'Some(ast::Initializer::Expression(Located::none( ast::Expression::Identifier(ast::ScopedIdentifier::trivial( &input_name, )), ))) } '
+            'else { None }, }]), }), location: SourceLocation::UNKNOWN, attributes: Vec::new(), }); '
+            'statements_after.push(ast::Statement { kind: ast::StatementKind::Expression(ast::Expression::BinaryOperation( ast::BinOp::Assignment, '
+            'Box::new(Located::none(ast::Expression::Identifier( ast::ScopedIdentifier::trivial(&input_name), ))), '
+            'Box::new(Located::none(ast::Expression::Identifier( ast::ScopedIdentifier::trivial(&local_name), ))), )), '
+            'location: SourceLocation::UNKNOWN, attributes: Vec::new(), }); params.push(Located::none(ast::Expression::Identifier( '
+            'ast::ScopedIdentifier::trivial(&local_name), ))); } else { params.push(Located::none(ast::Expression::Identifier( '
+            'ast::ScopedIdentifier::trivial(&input_name), ))); } } { params.push(Located::none(ast::Expression::Call( '
+            'Box::new(Located::none(ast::Expression::Identifier( metal_lib_identifier("true_type"), ))), Vec::new(), Vec::new(), ))); } '
+            'append_arguments_for_globals(&mut params, id, context); { let expr = ast::Expression::Call( '
+            'Box::new(Located::none(ast::Expression::Identifier( ast::ScopedIdentifier::trivial(name), ))), Vec::new(), params, ); '
+            'statements.push(ast::Statement { kind: if needs_return { ast::StatementKind::Var(ast::VarDef::one_with_expr( '
+            'Located::none(String::from(STAGE_OUTPUT_NAME_LOCAL)), return_type.clone(), Located::none(expr), )) } else { '
+            'ast::StatementKind::Expression(expr) }, location: SourceLocation::UNKNOWN, attributes: Vec::new(), }); } '
+            'statements.extend(statements_after); if needs_return { statements.push(ast::Statement { '
+            'kind: ast::StatementKind::Return(Some(Located::none(ast::Expression::Identifier( ast::ScopedIdentifier::trivial(STAGE_OUTPUT_NAME_LOCAL), )))), '
+            'location: SourceLocation::UNKNOWN, attributes: Vec::new(), }); } Ok(statements)')
+        out.append("/-- generate_function_out_trampoline_body has exactly the text `Model.GenMsl.trampolineBody` mirrors: one local per out/inout\n"
+                   "parameter (initialised from the parameter only for inout), the call of the same name with the locals, `metal::true_type()`\n"
+                   "and the arguments for globals, the copies back in parameter order, `return` of the saved result -/\n"
+                   f"def trampolineBodyAsModelled : Bool := {lb(tb == tramp_expected)}\n")
+        gft = normws(fn_body(gm, "generate_function_and_trampoline"))
+        emit_order = gft.endswith(
+            "if !needs_trampoline || !only_declare { functions.push(generate_function_inner( id, only_declare, needs_trampoline, false, context, )?); } "
+            "if needs_trampoline { functions.push(generate_function_inner( id, only_declare, false, true, context, )?); } Ok(())")
+        out.append("/-- the trampoline target (extra `metal::true_type` parameter) is emitted first, then the trampoline under the same name -/\n"
+                   f"def targetThenTrampoline : Bool := {lb(emit_order)}\n")
+        gfi = normws(fn_body(gm, "generate_function_inner"))
+        body_sel = ("let body = if only_declare { None } else if out_trampoline { Some(generate_function_out_trampoline_body( &name, id, sig, decl, "
+                    "&return_type, context, )?) } else { let mut statements = Vec::new(); for statement in &decl.scope_block.0 { "
+                    "statements.push(generate_statement(statement, context)?); } Some(statements) };") in gfi
+        out.append("/-- generate_function_inner: the body is the trampoline body or the statements of the source body, one by one\n"
+                   "(not through generate_scope_block: a label at function level keeps its empty statement) -/\n"
+                   f"def functionBodyAsModelled : Bool := {lb(body_sel)}\n")
+        tag_param = ('if trampoline_target { params.push(ast::FunctionParam { param_type: ast::Type::from(metal_lib_identifier("true_type")), '
+                     "declarator: ast::Declarator::Empty, location_annotations: Vec::new(), default_expr: None, }) }") in gfi
+        out.append(f"def tagParameterAsModelled : Bool := {lb(tag_param)}\n")
+        out.append(T.footer("MslGenTables"))
+        return "".join(out)
